@@ -60,12 +60,15 @@ func (rm *relayManager) GetUseRelays() bool {
 // stage 0 handshake packet for vpnIp through it.
 func (rm *relayManager) StartRelays(f *Interface, vpnIp netip.Addr, hh *HandshakeHostInfo, stage0 []byte) {
 	hostinfo := hh.hostinfo
-	if !rm.GetUseRelays() || len(hostinfo.remotes.relays) == 0 {
+	// Copy under the RemoteList lock, a concurrent Rebuild rewrites this slice in place
+	hostinfo.remotes.RLock()
+	relays := slices.Clone(hostinfo.remotes.relays)
+	hostinfo.remotes.RUnlock()
+	if !rm.GetUseRelays() || len(relays) == 0 {
 		hh.lastRelays = nil
 		return
 	}
 
-	relays := hostinfo.remotes.relays
 	listLevel := slog.LevelDebug
 	prior := hh.lastRelays
 	if !slices.Equal(relays, prior) {
